@@ -284,6 +284,19 @@ def r2(ck, FX, body, fname, exp, rid="C10.R2"):
         ck.bad(rid, vkey + ": names", where(body.raw["sp"]),
                "the static FieldSet of %s lists %s, the invocation declares %s" % (fname, names, exp["names"]), fn=body.path)
         return
+    # the `target:` / `name:` prefixes end up in the callsite's metadata (what every filter and formatter reads): the
+    # written target, else the invoking module's path; the written event name / the span's name literal
+    mt, mn = meta["target"].get("str"), meta["name"].get("str")
+    want_t = exp["target"].strip('"') if exp.get("target") else body.path.rsplit("::", 1)[0]
+    if mt != want_t:
+        ck.bad(rid, vkey + ": target", where(body.raw["sp"]), "the callsite's target is %r, the invocation says %r (fixture %s)" % (mt, want_t, fname), fn=body.path)
+        return
+    if exp.get("name") and mn != exp["name"].strip('"'):
+        ck.bad(rid, vkey + ": name", where(body.raw["sp"]), "the callsite's name is %r, the invocation says %s (fixture %s)" % (mn, exp["name"], fname), fn=body.path)
+        return
+    if not exp.get("name") and exp["kind"] == "span" and mn != "span " + fname and mn != fname:
+        ck.bad(rid, vkey + ": name", where(body.raw["sp"]), "the span's name is %r, not the literal written in the invocation (fixture %s)" % (mn, fname), fn=body.path)
+        return
     # the value_set call on the enabled path
     vs = [(bb, t) for bb, t in body.calls() if t["callee"].get("path") == FIELD + "FieldSet::value_set"]
     if len(vs) != 1:
